@@ -57,6 +57,12 @@ pub struct Observed {
     /// the `traced_gcs` counter (verification hook) before / after the op
     pub traced_before: usize,
     pub traced_after: usize,
+    /// the credit counters after the op: (marked, traced, remembered, dropped, freed)
+    pub counters_after: (usize, usize, usize, usize, usize),
+    /// objects the snapshot shows Gray that are in neither gray queue
+    pub orphan_gray: Vec<u32>,
+    /// a callback of another arena is running while this op executes
+    pub foreign_callback: bool,
     pub live_blocks: usize,
     pub alloc_violations: Vec<String>,
 }
@@ -340,6 +346,43 @@ impl Shadow {
             }
         }
 
+        // ---- C06 / C01: a Gray object is queued ----
+        // Gray means "to be traced": every path that greys an object (tracing a pointer to it, a
+        // backward barrier, resurrect, a trace that unwound) pushes it on `gray` or `gray_again`, and
+        // popping blackens it at once; snapshots are taken between operations, never during a trace.
+        for id in &obs.orphan_gray {
+            let what = format!("`{op}` left object {id} gray in no queue: it will never be traced, and the sweep does not expect it");
+            v("C06", what.clone());
+            v("C01", what);
+        }
+        // ---- C09 / C20: a debt-driven call made in debt makes progress ----
+        // (whatever else is going on on the thread: a callback of *another* arena may be running)
+        if let Op::Collect { method, .. } = op {
+            let debt_driven = matches!(method, Method::CollectDebt | Method::CycleDebt | Method::MarkDebt);
+            // mark_debt while Sweeping has nothing to do: it stops before the sweep
+            let idle_ok = *method == Method::MarkDebt && obs.phase_before == CPhase::Sweeping;
+            if debt_driven && obs.debt_before > 0.0 && !idle_ok && !obs.ret.starts_with("panic") {
+                if obs.foreign_callback {
+                    self.notes.push("isolation|debt-driven call in debt while a callback of another arena runs");
+                }
+                if obs.steps == "-" {
+                    let what = format!("{} made no progress although in debt ({}, phase {})", method.name(), obs.debt_before, obs.phase_before.name());
+                    v("C09", what.clone());
+                    if obs.foreign_callback {
+                        v("C20", format!("{what} while a callback of another arena was running; standalone it does"));
+                    }
+                }
+            }
+        }
+        // ---- C10: no credit counter outgrows the arena (theorem C10.counters_bounded) ----
+        // marked, traced, remembered <= total_gc_count and dropped <= remembered + freed, in every
+        // state of a live arena
+        if !matches!(op, Op::DropArena) {
+            let (mk, tr, rem, dr, fr) = obs.counters_after;
+            if mk > obs.total_after || tr > obs.total_after || rem > obs.total_after || dr > rem + fr {
+                v("C10", format!("credit counters outgrow the arena after `{op}`: marked={mk} traced={tr} remembered={rem} dropped={dr} freed={fr} with total_gc_count={} (marked, traced, remembered <= total; dropped <= remembered + freed)", obs.total_after));
+            }
+        }
         // ---- C10: count and debt ----
         if obs.total_after != obs.live_blocks {
             v("C10", format!("total_gc_count = {} but {} Gc blocks are allocated (after `{op}`)", obs.total_after, obs.live_blocks));
@@ -384,6 +427,12 @@ impl Shadow {
             }
             if !mutator_op && !arith {
                 v("C08", format!("unexpected panic in `{op}`: {}", obs.ret));
+            }
+            if !mutator_op && obs.ret.contains("unexpected gray object in sweep list") {
+                // the collector's own assertion: an object was left gray outside the queues (a
+                // barrier path), and the sweep cannot reclaim it
+                v("C06", format!("unexpected panic in `{op}`: {}", obs.ret));
+                v("C02", format!("unexpected panic in `{op}`: {}", obs.ret));
             }
         }
 
@@ -670,11 +719,11 @@ impl Shadow {
             Op::Alloc { kind, slots } => {
                 let id = self.objs.len() as u32;
                 let slots = match kind {
-                    Kind::Leaf => vec![],
+                    Kind::Leaf | Kind::LeafCell => vec![],
                     Kind::OnceCell => vec![None],
                     _ => slots.clone(),
                 };
-                self.objs.push(SObj { kind: *kind, leaf: *kind == Kind::Leaf, slots, dropped: 0, freed: 0 });
+                self.objs.push(SObj { kind: *kind, leaf: matches!(kind, Kind::Leaf | Kind::LeafCell), slots, dropped: 0, freed: 0 });
                 self.push(SP::S(id));
                 self.allocs_since_wake += 1;
                 self.mutated_since_wake = true;
